@@ -28,7 +28,7 @@ Definition run_gen (l : list Z) : list Z :=
   | Some (dp, g, li, vi, ei, rest) =>
       if dp =? 0 then cont_cfg g li ++ host_cfg g vi (tbl_of ei) ++ eni_cfg g ei (tbl_of ei)
       else if dp =? 1 then ipvlan_cont_cfg g li
-      else match observed rest with Some o => o | None => bad end      (* exclusive ENI and vlan: judged by the clauses only *)
+      else own_cont_cfg (dp =? 3) g li
   | None => bad
   end.
 
